@@ -38,7 +38,7 @@ inductive Cmd where
   | del (ks : List Bytes) (reclaim : Bool) | exists_ (ks : List Bytes) | type_ (k : Bytes) | touch (ks : List Bytes)
   | rename (s d : Bytes) (nx : Bool) | copy (s d : Bytes) (replace : Bool) (db : Bool)
   | keys (pat : Bytes) | randomkey | dbsize
-  | expire (k : Bytes) (n : Int) (unit : Nat) (abs : Bool) (opt : Bytes)  -- unit: ns per unit
+  | expire (k : Bytes) (n : Int) (unit : Nat) (abs : Bool) (opt : ExpireOpt)  -- unit: ns per unit
   | persist (k : Bytes) | ttl (k : Bytes) (kind : TtlKind)
   | scan (kind : Nat) (k : Bytes) (cursor : Int) (pat : Option Bytes) (count : Option Int) (ty : Option Bytes)
   | getbit (k : Bytes) (off : Int) | setbit (k : Bytes) (off v : Int)
@@ -117,12 +117,13 @@ def leftRight (b : Bytes) : Option Bool :=
 /-- a decimal the emulator's `toFloat` accepts; only plain decimals are generated -/
 def isFloatArg (b : Bytes) : Bool := (parseDecimal b).isSome
 
-def ttlOpt (r : List Bytes) : Option Bytes :=
+def ttlOpt (r : List Bytes) : Option ExpireOpt :=
   match r with
-  | [] => some []
+  | [] => some .none
   | [o] =>
     let u := lowerB o
-    if u == sb "nx" || u == sb "xx" || u == sb "gt" || u == sb "lt" then some u else none
+    if u == sb "nx" then some .nx else if u == sb "xx" then some .xx
+    else if u == sb "gt" then some .gt else if u == sb "lt" then some .lt else none
   | _ => none
 
 def parseBfOps : List Bytes → OverflowMode → List BfOp → Option (List BfOp)
@@ -747,6 +748,47 @@ def execQueue (c : Ctx) (conn : Nat) : List Queued → State → List Value → 
           let resp := (o.st.session conn).resp
           execQueue c conn r o.st (downIf resp c o.reply :: vs) ((if o.judged then o.hint else .custom "any") :: hs) (ps ++ o.pushed)
 
+def Cmd.isControl : Cmd → Bool
+  | .multi | .exec | .discard | .watch _ => true
+  | _ => false
+
+/-- what `prepare` + `dispatchHandler` do once the arguments have been parsed -/
+def dispatchParsed (c : Ctx) (s : State) (conn : Nat) (argv : List Bytes) (cmd : Cmd) : Out :=
+  let ses := s.session conn
+  match ses.queue with
+  | some q =>
+    if !cmd.isControl then
+      { st := s.setSession conn { ses with queue := some (q ++ [{ argv := argv, dbRef := ses.dbRef }]) },
+        reply := .simple (sb "QUEUED") }
+    else match cmd with
+      | .multi => { st := s, reply := errNested }
+      | .discard => { st := s.setSession conn { ses with queue := none, watches := [], queueErr := false }, reply := vOK }
+      | .exec =>
+        if ses.queueErr then
+          { st := s.setSession conn { ses with queue := none, watches := [], queueErr := false }, reply := execAbort }
+        else if ses.watches.any (watchChanged c s) then
+          if c.q.abortedExecStaysMulti then { st := s, reply := .nil }
+          else { st := s.setSession conn { ses with queue := none, watches := [] }, reply := .nil }
+        else
+          let (s1, vs, hs, ps, crash) := execQueue c conn q s [] [] []
+          let ses1 := s1.session conn
+          -- a handler that panics unwinds `fnExec` before the queue is dropped: the effects of the
+          -- commands already executed stay, and so do the queue and the watches
+          let s2 := if crash.isSome then s1
+                    else s1.setSession conn { ses1 with queue := none, watches := [], queueErr := false }
+          { st := s2, reply := downIf ses1.resp c (.array vs), hint := .each hs, crash := crash, pushed := ps }
+      | other =>
+        let o := runCmd c s conn ses.dbRef true other
+        { o with reply := downIf (o.st.session conn).resp c o.reply }
+  | none =>
+    match cmd with
+    | .multi => { st := s.setSession conn { ses with queue := some [], queueErr := false }, reply := vOK }
+    | .exec => { st := s, reply := errExecNoMulti }
+    | .discard => { st := s, reply := errDiscardNoMulti }
+    | other =>
+      let o := runCmd c s conn ses.dbRef false other
+      { o with reply := downIf (o.st.session conn).resp c o.reply }
+
 /-- `cmdDispatcher.dispatch`: one command from connection `conn` -/
 def dispatch (c : Ctx) (s : State) (conn : Nat) (argv : List Bytes) : Out :=
   match argv with
@@ -764,36 +806,6 @@ def dispatch (c : Ctx) (s : State) (conn : Nat) (argv : List Bytes) : Out :=
     | none =>
       let ses' := if ses.queue.isSome && !c.q.queueErrorNoAbort then { ses with queueErr := true } else ses
       { st := s.setSession conn ses', reply := errArity name }
-    | some cmd =>
-      match ses.queue with
-      | some q =>
-        if !isControl n then
-          { st := s.setSession conn { ses with queue := some (q ++ [{ argv := argv, dbRef := ses.dbRef }]) },
-            reply := .simple (sb "QUEUED") }
-        else match cmd with
-          | .multi => { st := s, reply := errNested }
-          | .discard => { st := s.setSession conn { ses with queue := none, watches := [], queueErr := false }, reply := vOK }
-          | .exec =>
-            if ses.queueErr then
-              { st := s.setSession conn { ses with queue := none, watches := [], queueErr := false }, reply := execAbort }
-            else if ses.watches.any (watchChanged c s) then
-              if c.q.abortedExecStaysMulti then { st := s, reply := .nil }
-              else { st := s.setSession conn { ses with queue := none, watches := [] }, reply := .nil }
-            else
-              let (s1, vs, hs, ps, crash) := execQueue c conn q s [] [] []
-              let ses1 := s1.session conn
-              let s2 := s1.setSession conn { ses1 with queue := none, watches := [], queueErr := false }
-              { st := s2, reply := downIf ses1.resp c (.array vs), hint := .each hs, crash := crash, pushed := ps }
-          | other =>
-            let o := runCmd c s conn ses.dbRef true other
-            { o with reply := downIf (o.st.session conn).resp c o.reply }
-      | none =>
-        match cmd with
-        | .multi => { st := s.setSession conn { ses with queue := some [], queueErr := false }, reply := vOK }
-        | .exec => { st := s, reply := errExecNoMulti }
-        | .discard => { st := s, reply := errDiscardNoMulti }
-        | other =>
-          let o := runCmd c s conn ses.dbRef false other
-          { o with reply := downIf (o.st.session conn).resp c o.reply }
+    | some cmd => dispatchParsed c s conn argv cmd
 
 end RedisEmu
